@@ -50,3 +50,9 @@ chk("C09", "model_checking",
     "States are not merged (the compiled query exposes no inspectable state), so the search is a complete tree walk to the depth bound; every model transition is an implementation call.",
     "explicit-state exhaustive search over operation histories (depth-bounded) on the real object with a differential oracle",
     "DESIGN.md §3 C09")
+
+chk("C18", "model_checking",
+    "Explicit-state search over file-system histories on the freshly built acv binary: breadth-first from 7 initial states of the output path to a fixpoint of the canonical state set, every transition being one real CLI invocation (validate with/without output path for 8 inputs, generate, normalize, compile, invalid invocations); each transition is checked against the library called in-process on the same texts.",
+    "dateCreated cannot be fixed from the CLI: its value is masked after being checked to be RFC3339 within the invocation window. Runs as root (read-only file is writable).",
+    "explicit-state BFS to a fixpoint over output-path states with the real binary as transition function and the library as reference model",
+    "DESIGN.md §3 C18")
